@@ -126,3 +126,10 @@ T("c18-guard-flat-and", ["C18", "C01"], CONS,
 T("c18-scrypt-literal", ["C18"], HASH, "N=1 << 15", "N=32768")
 T("c18-vlq-rename", ["C18", "C07"], SER, "    mod = 0\n    for j in reversed(range(needed_bytes)):\n        div = pow(128, j)\n        f.write(struct.pack(b\"B\", (i % mod if mod else i) // div + (128 if j > 0 else 0)))\n        mod = div",
   "    modulus = 0\n    for k in reversed(range(needed_bytes)):\n        divisor = 128 ** k\n        f.write(struct.pack(b\"B\", (128 if k > 0 else 0) + (i % modulus if modulus else i) // divisor))\n        modulus = divisor")
+
+T("c09-local-alias-names", ["C09", "C10"], RP, "        block: Block = message.data  # type: ignore\n\n        coinstate_prior = self.local_peer.chain_manager.coinstate\n",
+  "        blk: Block = message.data  # type: ignore\n        block = blk\n\n        chain_manager = self.local_peer.chain_manager\n        coinstate_prior = chain_manager.coinstate\n")
+T("c09-extra-logging", ["C09", "C10", "C20"], RP, "            coinstate_changed = coinstate_prior.add_block_no_validation(block)\n",
+  "            coinstate_changed = coinstate_prior.add_block_no_validation(block)\n            self.local_peer.logger.debug(\"%15s applied\" % self.host)\n")
+T("c09-early-return-dedupe", ["C09", "C10"], RP, "        if block_hash not in coinstate_prior.block_by_hash:\n\n            if block.header.summary.previous_block_hash not in coinstate_prior.block_by_hash:",
+  "        if block_hash in coinstate_prior.block_by_hash:\n            return\n\n        if True:\n\n            if block.header.summary.previous_block_hash not in coinstate_prior.block_by_hash:")
